@@ -276,6 +276,10 @@ def deriv_alphabet(param=False):
         lambda: ("arr", {"size": int_const("2"), "quals": ["const"], "static": "first"}),
         lambda: ("arr", {"size": "*", "quals": []}),
         lambda: ("arr", {"size": M("bin", op="+", l=ident("n"), r=int_const("1")), "quals": ["restrict"], "static": "last"}),
+        # a parenthesised typedef name in a parameter list is a parameter of that type, never a parameter name (6.7.5.3p11)
+        lambda: ("fn", {"params": [M("param", specs=specs_of(M("tdname", name="T0")), dtor=dtor(None)),
+                                   M("param", specs=specs_of(M("tdname", name="T1"), quals=["const"]), dtor=dtor(None, [("ptr", [])]))],
+                        "variadic": False, "kr": None}),
     ]
     return p
 
@@ -380,7 +384,7 @@ def rand_members(rnd, depth):
             continue
         dts = []
         for _ in range(rnd.choice([1, 1, 2])):
-            nm = "m%d" % rnd.randrange(100)
+            nm = "m%d" % rnd.randrange(100) if rnd.random() < 0.9 else rnd.choice(TYPEDEFS)  # members live in their own name space
             if rnd.random() < 0.25 and sp["ts"].k in ("basic", "tdname", "enum") and not sp["align"]:
                 bits = rand_cexpr(rnd, 1)
                 if rnd.random() < 0.3:
@@ -591,8 +595,12 @@ def rand_funcdef(rnd, depth=3, name=None, kr=False):
                 params.append(M("param", specs=psp, dtor=dtor("p%d" % i, rand_derivs(rnd, rnd.choice([0, 0, 1, 2]), param=True))))
         fn = ("fn", {"params": params, "variadic": (rnd.random() < 0.15 and params[0]["dtor"]["name"] is not None), "kr": None})
     outer = []
-    if rnd.random() < 0.15:
+    r2 = rnd.random()
+    if r2 < 0.15:
         outer = [("ptr", [])]
+    elif r2 < 0.22:
+        # function returning a pointer to a function / to an array
+        outer = [("ptr", []), rnd.choice(deriv_alphabet()[4:7])()]
     d = dtor(name, [fn] + outer)
     body = M("block", items=sg.items(depth, False, False))
     return M("funcdef", specs=sp, dtor=d, krdecls=krdecls, body=body)
